@@ -853,6 +853,66 @@ def longcw_dict(tier, rng):
     return S, rare, probe
 
 
+def chunks_phase2(case, impl_lines):
+    """The decoding table exported by the real dictionary -> the Lean validator (`TableOK`, coverage, and the
+    model of processChunk run on the real table over the same encoded texts)."""
+    ops = []
+    k = 0
+    for l in impl_lines:
+        t = l.split()
+        if k >= len(case[5]):
+            break
+        src = case[5][k]
+        if len(t) >= 8 and t[1] == "CT":
+            d = dict(x.split("=", 1) for x in t[2:])
+            ops.append(["chchk", str(src[2]), src[3] if len(src) > 3 else "-", d.get("k", "0"), d.get("cw", "-"), d.get("pos", "-"),
+                        d.get("ent", "-"), d.get("trees", "-"), d.get("runs", "-")])
+            k += 1
+        elif len(t) >= 2 and t[1] == "RQ":
+            ops.append(["rdskip"])
+            k += 1
+        elif not l.startswith("FAULT"):
+            ops.append(["chchk", "0", "-", "0", "-", "-", "-", "-", "-"])
+            k += 1
+    while len(ops) < len(case[5]):
+        ops.append(["chchk", "0", "-", "0", "-", "-", "-", "-", "-"])
+    return ops
+
+
+def chunk_cases(tier, rng):
+    """Real dictionaries of the five kinds that decode through a chunk table; texts over the whole byte
+    alphabet (rare bytes have the long codewords), run from several `extracted` counts."""
+    r = rng.fork("chunks")
+    thorough = tier == "thorough"
+    bat = small_battery(tier, rng, 8 if thorough else 3)
+    Sl, rare, probe = longcw_dict(tier, rng)
+    bat = bat + [("longcw", Sl)]
+    cases = []
+    for dname, S in bat:
+        if sum(len(x) for x in S) > 400000:
+            continue
+        texts = []
+        cat = b"".join(x + b"\0" for x in S[:12])[:400]
+        texts.append(cat)
+        texts.append(bytes(r.range(0, 255) for _ in range(60)))
+        texts.append(bytes(r.choice([0, 1, 2, 0xD0, 0xD1, 0xE0, 0xE5, 0xFE, 0xFF, 0x61]) for _ in range(40)))
+        texts.append(bytes([0]) * 20)
+        texts.append(bytes([0x61, 0, 0x61, 0x62, 0, 0, 0x63]) * 6)
+        texts += [x + b"\0" for x in (rare[:3] if dname == "longcw" else S[:2])]
+        th = ",".join(hx(x) for x in texts)
+        for kind, whiches in (("HTFC", (0,)), ("HHTFC", (0, 1)), ("RPHTFC", (0,)), ("HASHHF", (0,)), ("HASHUFFDAC", (0,))):
+            for pv in ({"b": 4, "ov": 25},) + (({"b": 16, "ov": 0},) if thorough else ()):
+                ops = []
+                for w in whiches:
+                    for e0 in (0, 1, 3):
+                        ops.append(["ct", w, e0, th])
+                ops.append(["reload"])
+                for w in whiches:
+                    ops.append(["ct", w, 2, th])
+                cases.append(("ch_%s_%s_b%d" % (dname, kind, pv["b"]), "chunks", kind, pv, S, ops))
+    return cases
+
+
 def c18_streams(tier, rng):
     cases = []
     for name, v in freq_vectors(tier, rng):
@@ -869,7 +929,8 @@ def c18_streams(tier, rng):
                 ops = pre + [["loc" if kind in EXACT_ID_KINDS else "rt", hx(s)] for s in probe] + [["exts"]]
                 cases_id = "lc_%s_%s_%s" % (kind, pv["b"], ph)
                 dcases.append((cases_id, "dict", kind, pv, S, ops))
-    return [StreamSet("tables", "asan", cases, phase2=codes_phase2), StreamSet("decoding", "asan", dcases, timeout=120)]
+    return [StreamSet("tables", "asan", cases, phase2=codes_phase2), StreamSet("decoding", "asan", dcases, timeout=120),
+            StreamSet("chunk-table", "asan", chunk_cases(tier, rng), phase2=chunks_phase2, timeout=120)]
 
 
 def bitvectors(tier, rng):
